@@ -212,6 +212,9 @@ Proof.
   - (* DirectStart *) break_step E; apply (Inv_frame cap tr s); auto.
   - (* DirectEnd *) break_step E; apply (Inv_frame cap tr s); auto.
   - (* Snap *) break_step E; apply (Inv_frame cap tr s'); auto.
+  - (* ReadCancel *) break_step E; apply (Inv_frame cap tr s); auto.
+  - (* Told *) break_step E; apply (Inv_frame cap tr s'); auto.
+  - (* ApiTold *) break_step E; apply (Inv_frame cap tr s'); auto.
 Qed.
 
 Theorem Inv_run cap tr : forall s, run cap init tr = Some s -> Inv cap tr s.
